@@ -1530,3 +1530,64 @@ func checkNotRunningErrors(c *Ctx) {
 	c.floor(rule, 9, "cache x5 (sync, update, refilter, List, Get), publisher.Subscribe, filterSubscription.Refilter, _watcher.reset, _subscription.send")
 	_ = n
 }
+
+// checkCtorChannelCapacities: the request/hand-off channels the actors'
+// protocols rely on keep their capacity: rendezvous channels stay unbuffered
+// (a buffered tick or reset channel lets a stale message survive the handler
+// that was meant to withdraw it), event buffers stay at EventBufsiz.
+func checkCtorChannelCapacities(c *Ctx) {
+	rule := "T-CHAN(capacities)"
+	bufLit, _ := c.P.constLit("", "EventBufsiz")
+	want := map[string]string{
+		"_subscription.inch": "0", "_subscription.outch": bufLit,
+		"filterSubscription.refilterch": "0", "filterSubscription.outch": bufLit, "filterSubscription.readych": "0",
+		"_cache.syncch": "0", "_cache.updatech": "0", "_cache.refilterch": "0", "_cache.getch": "0", "_cache.listch": "0",
+		"publisher.subscribech": "0", "publisher.unsubscribech": "0",
+		"_lister.resultch": "0",
+		"_ticker.nextch": "0", "_ticker.resetch": "0", "_ticker.stopch": "0", "_ticker.donech": "0",
+		"_watcher.resetch": "0", "_watcher.evtch": "0",
+		"_watchSession.outch": bufLit,
+		"controller.readych": "0",
+	}
+	seen := map[string]bool{}
+	for _, f := range c.P.SrcFuncs("") {
+		for _, b := range f.Blocks {
+			for _, in := range b.Instrs {
+				st, ok := in.(*ssa.Store)
+				if !ok {
+					continue
+				}
+				fa, ok := st.Addr.(*ssa.FieldAddr)
+				if !ok {
+					continue
+				}
+				v := st.Val
+				if ct, ok := v.(*ssa.ChangeType); ok {
+					v = ct.X
+				}
+				mc, ok := v.(*ssa.MakeChan)
+				if !ok {
+					continue
+				}
+				key := typeNameOf(fa.X.Type()) + "." + structFieldName(fa.X.Type(), fa.Field)
+				w, known := want[key]
+				if !known {
+					continue
+				}
+				seen[key] = true
+				c.sites++
+				n, isConst := constIntValue(mc.Size)
+				c.check(isConst && fmt.Sprint(n) == w, rule, key+"/capacity="+w, c.P.instrPos(in), "", fmt.Sprintf("channel %s is made with capacity %v, the protocol needs %s", key, mc.Size, w))
+			}
+		}
+	}
+	// controller.readych is a local in builder.Create (checked by T-FLOW(ready)); all others must have been seen
+	missing := []string{}
+	for k := range want {
+		if !seen[k] && k != "controller.readych" {
+			missing = append(missing, k)
+		}
+	}
+	sort.Strings(missing)
+	c.check(len(missing) == 0, rule, "all-protocol-channels-found", "-", fmt.Sprintf("%d channels", len(seen)), fmt.Sprintf("protocol channels not found in any constructor: %v", missing))
+}
